@@ -457,7 +457,7 @@ fn main() {
         rec.notes.push(format!("exhaustive: {n} threads, all schedules to decision depth {depth}: {runs} runs"));
     }
     let mut rng = Rng::new(args.seed);
-    let cases = args.budget(400, 10000);
+    let cases = args.budget(400, 5000);
     for c in 0..cases {
         let n = rng.range(2, 4) as usize;
         let budget = rng.range(8, 70) as usize;
